@@ -328,7 +328,11 @@ def relation_goals(goals, key, L, a, b, out, tol_tau, info, res=None):
                 add("False", "fail", "implementation returned a non-finite / non-real value %r" % (v,))
             else:
                 v = float(v)
-                add("agreesR (%s) %s %s" % (m, R(v), R(TOL_CLOSED * abs(v))), "c_real", "closed form within 1e-9")
+                tol = TOL_CLOSED
+                if key == ("start_size", "count", "c2c_expansion") and b != 1.0:
+                    # 1 - r^n loses digits next to the band |r-1| <= TOL: conditioning of binary64, not a defect
+                    tol *= 1 + min(100.0, 2e-7 / abs(b - 1.0))
+                add("agreesR (%s) %s %s" % (m, R(v), R(tol * abs(v))), "c_real", "closed form within 1e-9")
         return boundary
 
     if key in count_models:
@@ -576,7 +580,8 @@ def gen_relation_inputs(rng, key, tau):
     if key in (("c2c_expansion", "count", "start_size"), ("c2c_expansion", "count", "end_size")):
         k = rng.random()
         if k < 0.3:
-            d = rng.choice([0.0, 5e-8, -5e-8, 0.9e-7, -0.9e-7, 1.1e-7, -1.1e-7, 2e-7, -2e-7, 1e-6, -1e-6])
+            d = rng.choice([0.0, 5e-8, -5e-8, 0.9e-7, -0.9e-7, 1.1e-7, -1.1e-7, 2e-7, -2e-7, 1e-6, -1e-6,
+                            1e-4, -1e-4, 3e-3, -3e-3])
             return L, n, L / n * (1 + d), "in"
         n = max(n, 2)
         r = draw_r(rng, n, band=0.0)
@@ -973,10 +978,10 @@ class C03(Prop):
         goals = Goals()
         self._cases = []
 
-        n_rel = ctx.n(16, 400)
-        n_mal = ctx.n(3, 40)
-        n_plan = ctx.n(10, 300)
-        n_inv = ctx.n(4, 100)
+        n_rel = ctx.n(16, 300)
+        n_mal = ctx.n(3, 30)
+        n_plan = ctx.n(10, 200)
+        n_inv = ctx.n(4, 60)
         n_grad = ctx.n(4, 100)
 
         # (0) the corpus through every direct oracle, first (its replays are the simplest)
@@ -1170,7 +1175,7 @@ class C03(Prop):
                 shards.append(("cases_%d" % k, HEADER + "\n".join(t for (_i, t) in chunk)))
         ok_ids, bad_ids = set(), set()
         import re
-        for (name, rc, so, se) in core.run_cases_parallel(ctx, shards, timeout=600):
+        for (name, rc, so, se) in core.run_cases_parallel(ctx, shards, timeout=(600 if ctx.quick else 1700)):
             if rc != 0:
                 res.error = "case file %s failed to compile (rc %s): %s" % (name, rc, se[-800:])
                 return res
